@@ -80,6 +80,19 @@ def _c11(spec):
     return p
 
 
+@plan("joblock")
+def _joblock(spec):
+    """A node in its job phase: the acquisition of its results-file lock times out (another process sat on it for
+    300 s) when a finished job's result is to be appended."""
+
+    def p(w, v, op):
+        if v.kind == "node" and _in_job_phase(v) and op.kind == "acquire" and ".csv.lock" in (op.detail or ""):
+            return ["lock-timeout"]
+        return []
+
+    return p
+
+
 @plan("kill_any")
 def _kill_any(spec):
     """Mode F: any driver may be killed at any sync point after its start."""
